@@ -3,6 +3,7 @@ package main
 import (
 	"fmt"
 	"go/ast"
+	"go/constant"
 	"go/token"
 	"go/types"
 	"sort"
@@ -246,7 +247,7 @@ func rulesC14(c *Ctx) {
 			var missing []string
 			if !positional {
 				for i := 0; i < st.NumFields(); i++ {
-					if !set[st.Field(i).Name()] {
+					if !set[st.Field(i).Name()] && !zeroGuarded(p, fd.Body, cl, st.Field(i).Name()) {
 						missing = append(missing, st.Field(i).Name())
 					}
 				}
@@ -373,4 +374,73 @@ func boundVar(p *Program, body *ast.BlockStmt, cl *ast.CompositeLit) types.Objec
 		return true
 	})
 	return out
+}
+
+// zeroGuarded: the literal lies on a branch taken only when the source's
+// field of the same name is nil / zero / empty, so leaving it unset copies it.
+func zeroGuarded(p *Program, body *ast.BlockStmt, lit *ast.CompositeLit, field string) bool {
+	isZeroTest := func(cond ast.Expr, wantEq bool) bool {
+		b, ok := ast.Unparen(cond).(*ast.BinaryExpr)
+		if !ok {
+			return false
+		}
+		if (b.Op == token.EQL) != wantEq || (b.Op != token.EQL && b.Op != token.NEQ) {
+			return false
+		}
+		side := func(x, y ast.Expr) bool {
+			x = ast.Unparen(x)
+			if call, ok := x.(*ast.CallExpr); ok && len(call.Args) == 1 {
+				if id := identOf(call.Fun); id != nil && id.Name == "len" {
+					x = ast.Unparen(call.Args[0])
+				}
+			}
+			sel, ok := x.(*ast.SelectorExpr)
+			if !ok || sel.Sel.Name != field {
+				return false
+			}
+			if id := identOf(y); id != nil && id.Name == "nil" {
+				return true
+			}
+			if tv := p.Info.Types[y]; tv.Value != nil {
+				switch tv.Value.Kind() {
+				case constant.Int, constant.Float:
+					return constant.Sign(tv.Value) == 0
+				case constant.String:
+					return constant.StringVal(tv.Value) == ""
+				case constant.Bool:
+					return !constant.BoolVal(tv.Value)
+				}
+			}
+			return false
+		}
+		return side(b.X, b.Y) || side(b.Y, b.X)
+	}
+	found := false
+	var walk func(n ast.Node, guarded bool)
+	walk = func(n ast.Node, guarded bool) {
+		if n == nil || found {
+			return
+		}
+		if n == ast.Node(lit) {
+			found = guarded
+			return
+		}
+		if is, ok := n.(*ast.IfStmt); ok {
+			walk(is.Init, guarded)
+			walk(is.Body, guarded || isZeroTest(is.Cond, true))
+			if is.Else != nil {
+				walk(is.Else, guarded || isZeroTest(is.Cond, false))
+			}
+			return
+		}
+		ast.Inspect(n, func(m ast.Node) bool {
+			if m == n || m == nil {
+				return true
+			}
+			walk(m, guarded)
+			return false
+		})
+	}
+	walk(body, false)
+	return found
 }
